@@ -1,5 +1,6 @@
 import PoolModel.C11
 import PoolProofs.C11Lemmas
+import PoolProofs.C11Overflow
 /-! # C11 — reserved value covers the worst-case debit; orders never over-commit an account
 
 Headline theorems about the executable model `PoolModel/C11.lean` (+ `PoolModel/Float64.lean`).
@@ -260,17 +261,38 @@ theorem order_plan_covered (fs : FeeSchedule) (ver : Nat) (x : Order) (bs : List
   · obtain ⟨R, hR, hle⟩ := C11_ask_reserve_covers fs x ver bs ha.1 hna hmin ha.2.1 hg hfl ha.2.2
     simpa [reservedOf, hR] using hle
 
+/-- as `OrderPlanOk`, without assuming a non-zero minimum match (acceptance already excludes the division by zero) -/
+def OrderPlanOk' (ver : Nat) (x : Order) (bs : List BatchFills) : Prop :=
+  (archived x.state = true ∧ bs = []) ∨
+  (archived x.state = false ∧ premiumGuard x = true ∧ feePerKwFloor ≤ x.maxBatchFeeRate ∧
+    ((x.isBid = true ∧ Admissible x ver (· ≤ x.fixedRate) bs) ∨
+     (x.isBid = false ∧ askGuard x ∧ Admissible x ver (x.fixedRate ≤ ·) bs)))
+
 /-- **Orders never over-commit an account.** If `validateOrder` accepted the new order `o`, then whatever admissible
 batches the new order and the account's stored orders are later matched in (`plan` pairs each of these orders with its
-batches), the verifier debits in total at most the account value plus two satoshis per match. -/
+batches), the verifier debits in total at most the account value plus two satoshis per match. The minimum-match
+hypothesis of the reserve theorems is discharged from the acceptance (no `ReservedValue` panicked). -/
 theorem C11_accept_never_overcommits (db : List Order) (o : Order) (acct : Account) (t : Terms)
     (hacc : validateOrder db o acct t = .ok)
     (plan : List (Order × List BatchFills))
     (hplan : plan.map (·.1) = o :: db.filter (fun x => x.acctKey = acct.key))
-    (hok : ∀ p ∈ plan, OrderPlanOk acct.version p.1 p.2) :
+    (hok : ∀ p ∈ plan, OrderPlanOk' acct.version p.1 p.2) :
     (plan.map (fun p => totalDebit ⟨t.baseFee, t.feeRate⟩ p.1 p.2)).sum
       ≤ (acct.value : Int) + 2 * ((plan.map (fun p => totalFills p.2)).sum : Nat) := by
-  obtain ⟨_, _, r0, hr0, hcov, _⟩ := C11_accept_implies_covered db o acct t hacc
+  obtain ⟨_, _, r0, hr0, hcov, hnp⟩ := C11_accept_implies_covered db o acct t hacc
+  -- no order of the plan panics, hence active ones have a non-zero minimum match
+  have hok2 : ∀ p ∈ plan, OrderPlanOk acct.version p.1 p.2 := by
+    intro p hp
+    have hmem : p.1 ∈ o :: db.filter (fun x => x.acctKey = acct.key) := by
+      rw [← hplan]; exact List.mem_map_of_mem hp
+    have hnopanic : orderReservedValue ⟨t.baseFee, t.feeRate⟩ p.1 acct.version ≠ .panic := by
+      rcases List.mem_cons.1 hmem with h | h
+      · rw [h, hr0]; simp
+      · have := List.mem_filter.1 h
+        exact hnp p.1 this.1 (by simpa using this.2)
+    rcases hok p hp with h | ⟨hna, hg, hfl, hrest⟩
+    · exact Or.inl h
+    · exact Or.inr ⟨hna, min_pos_of_not_panic _ _ _ hna hnopanic, hg, hfl, hrest⟩
   have hsum : ∀ l : List (Order × List BatchFills), (∀ p ∈ l, OrderPlanOk acct.version p.1 p.2) →
       (l.map (fun p => totalDebit ⟨t.baseFee, t.feeRate⟩ p.1 p.2)).sum ≤
         ((l.map (·.1)).map (reservedOf ⟨t.baseFee, t.feeRate⟩ acct.version)).sum
@@ -284,12 +306,41 @@ theorem C11_accept_never_overcommits (db : List Order) (o : Order) (acct : Accou
       simp only [List.map_cons, List.sum_cons]
       push_cast at h2 ⊢
       omega
-  have h := hsum plan hok
+  have h := hsum plan hok2
   rw [hplan] at h
   simp only [List.map_cons, List.sum_cons] at h
   have : reservedOf ⟨t.baseFee, t.feeRate⟩ acct.version o = r0 := by simp [reservedOf, hr0]
   rw [this] at h
   omega
+
+/-- the version clause of `Admissible` holds whenever the account only moves up through the known versions
+(`account.ValidateVersion`'s list) after the reserve was computed, and always when it was computed for a legacy
+account. -/
+theorem C11_version_clause (ver : Nat) (bs : List BatchFills)
+    (h : ∀ b ∈ bs, ver = 0 ∨ (ver ∈ knownAccountVersions ∧ b.ver ∈ knownAccountVersions ∧ ver ≤ b.ver)) :
+    ∀ b ∈ bs, traderWitness b.ver ≤ traderWitness ver := by
+  intro b hb
+  rcases h b hb with rfl | ⟨h1, h2, h3⟩
+  · exact traderWitness_le_legacy _
+  · exact traderWitness_upgrade h1 h2 h3
+
+/-! ## the model's unbounded integers agree with Go's `int64` inside the stated domain -/
+
+/-- closed form of `ReservedValue` for an active order with a non-zero minimum match -/
+theorem C11_reserved_closed_form (fs : FeeSchedule) (o : Order) (ver : Nat)
+    (hna : archived o.state = false) (hm : 0 < o.minUnitsMatch) :
+    orderReservedValue fs o ver =
+      .ok (if closedBalanceDelta fs o ver < 0 then -closedBalanceDelta fs o ver else 0) :=
+  reservedValue_closed fs o ver hna hm
+
+/-- **No `int64` overflow inside the domain**: every integer Go computes on the way to `ReservedValue` – the satoshi
+amounts, `amt*feeRate`, the float premiums after truncation (all ≤ 2^49, so also far below the 2^63 limit of the
+float→int conversion), the per-match deltas, `maxNumMatches * perMatchDelta`, the chain-fee products and the running
+balance delta – lies in `[-2^63, 2^63)`. Hence the unbounded arithmetic of the model is Go's arithmetic there. -/
+theorem C11_no_int64_overflow (fs : FeeSchedule) (o : Order) (ver : Nat)
+    (hD : inDomain fs o = true) (hm : 0 < o.minUnitsMatch) :
+    ∀ v ∈ reservedIntermediates fs o ver, -(2 : Int) ^ 63 ≤ v ∧ v < (2 : Int) ^ 63 :=
+  reserved_intermediates_in64 fs o ver hD hm
 
 /-! ## the statement without the guards, and why each guard is there -/
 
@@ -387,9 +438,9 @@ example : archived (4 : Nat) = true ∧ orderReservedValue exFs { exBid with sta
     stored ask of the same account (two batches) meets `hplan` and `hok` -/
 example : ([(exBid, exBidBatches), (exAsk, exAskBatches)].map (·.1) =
       exBid :: [exAsk, { exBid with acctKey := 1 }].filter (fun x => x.acctKey = (⟨0, 2000000, 0⟩ : Account).key)) ∧
-    OrderPlanOk 0 exBid exBidBatches ∧ OrderPlanOk 0 exAsk exAskBatches := by
-  refine ⟨by decide, Or.inr ⟨by decide, by decide, by decide, by decide, Or.inl ⟨rfl, ?_⟩⟩,
-    Or.inr ⟨by decide, by decide, by decide, by decide, Or.inr ⟨rfl, by decide, ?_⟩⟩⟩
+    OrderPlanOk' 0 exBid exBidBatches ∧ OrderPlanOk' 0 exAsk exAskBatches := by
+  refine ⟨by decide, Or.inr ⟨by decide, by decide, by decide, Or.inl ⟨rfl, ?_⟩⟩,
+    Or.inr ⟨by decide, by decide, by decide, Or.inr ⟨rfl, by decide, ?_⟩⟩⟩
   · refine ⟨?_, ?_, ?_, ?_, ?_⟩ <;> simp [exBid, exBidBatches, totalUnits, fillsUnits] <;> decide
   · refine ⟨?_, ?_, ?_, ?_, ?_⟩ <;> simp [exAsk, exAskBatches, totalUnits, fillsUnits] <;> decide
 
@@ -398,5 +449,14 @@ example : ([(exBid, exBidBatches), (exAsk, exAskBatches)].map (·.1) =
 example : validateOrder [exAsk, { exBid with acctKey := 1 }] exBid ⟨0, 2000000, 0⟩ ⟨1, 1000, [2016]⟩ = .ok ∧
     validateOrder [exAsk, { exBid with acctKey := 1 }] exBid ⟨0, 700000, 0⟩ ⟨1, 1000, [2016]⟩ = .errInsufficient := by
   decide
+
+/-- `C11_version_clause`: a taproot account (version 1) upgraded to version 2 before a later batch -/
+example : ∀ b ∈ ([⟨800, 1, [⟨2, 4000, 0⟩]⟩, ⟨900, 2, [⟨2, 4000, 0⟩]⟩] : List BatchFills),
+    (1 : Nat) = 0 ∨ (1 ∈ knownAccountVersions ∧ b.ver ∈ knownAccountVersions ∧ 1 ≤ b.ver) := by decide
+
+/-- `C11_no_int64_overflow` / `C11_reserved_closed_form`: the example bid is inside the domain; its closed-form
+    balance delta is −9718 and the list of intermediates has 32 entries (remainder branch) -/
+example : inDomain exFs exBid = true ∧ 0 < exBid.minUnitsMatch ∧ archived exBid.state = false ∧
+    closedBalanceDelta exFs exBid 0 = -9718 ∧ (reservedIntermediates exFs exBid 0).length = 32 := by decide
 
 end Pool.C11
